@@ -663,7 +663,7 @@ func c09resStages(c *Ctx) {
 	const brokenFmt = "correspondence C09.fmtclauses (Martian.FormatRes.fmtSrc/fmtRes/fmtRetain vs SrcParam.format/Resources.format/RetainParams.format)"
 	n := 1500
 	if c.Thorough {
-		n = 15000
+		n = 9000
 	}
 	cases := make([]c09resCase, 0, n+len(c09resNearMisses)+40)
 	// every subset of the five entries, in the canonical and in the reverse order
